@@ -186,6 +186,55 @@ mod p_smol {
     }
 }
 
+// order: a bounded std actor (channel = 2) is parked in `hold` and its queue is filled by two `push` calls; a second thread then issues,
+// through its own clone and in this order, `snap` (an interact method that hands back the receiving end of a one-time channel) and `push(3)`;
+// then the gate opens.  Per-handle order: `snap` is applied before `push(3)`, so the snapshot it sends is exactly [hold, push:1, push:2].
+mod p_std_order {
+    use super::*;
+    use std::sync::Condvar;
+    pub type Gate = Arc<(Mutex<bool>, Condvar)>;
+    pub struct Q { log: Arc<Mutex<Vec<String>>>, gate: Gate }
+    #[interthread::actor(channel = 2, debut, interact)]
+    impl Q {
+        pub fn new(log: Arc<Mutex<Vec<String>>>, gate: Gate) -> Self { Self { log, gate } }
+        pub fn hold(&mut self) {
+            self.log.lock().unwrap().push("hold".into());
+            let (m, c) = &*self.gate;
+            let mut g = m.lock().unwrap();
+            while !*g { g = c.wait(g).unwrap(); }
+        }
+        pub fn push(&mut self, v: u64) { self.log.lock().unwrap().push(format!("push:{}", v)); }
+        pub fn snap(&mut self, inter_send: oneshot::Sender<Vec<String>>) {
+            let s = self.log.lock().unwrap().clone();
+            self.log.lock().unwrap().push("snap".into());
+            let _ = inter_send.send(s);
+        }
+    }
+    pub fn run() -> (Vec<String>, Vec<String>, Vec<String>) {
+        let log = Arc::new(Mutex::new(vec![]));
+        let gate: Gate = Arc::new((Mutex::new(false), Condvar::new()));
+        let mut errs: Vec<String> = vec![];
+        let mut h = QLive::new(log.clone(), gate.clone());
+        h.hold();
+        for _ in 0..600 { if log.lock().unwrap().iter().any(|x| x == "hold") { break; } std::thread::sleep(Duration::from_millis(5)); }
+        h.push(1);
+        h.push(2);
+        let mut c = h.clone();
+        let (tx, rx) = std::sync::mpsc::channel();
+        let th = std::thread::spawn(move || { let r = c.snap(); c.push(3); let _ = tx.send(r); });
+        std::thread::sleep(Duration::from_millis(400));
+        { let (m, cv) = &*gate; *m.lock().unwrap() = true; cv.notify_all(); }
+        let snapshot = match rx.recv_timeout(Duration::from_secs(10)) {
+            Ok(r) => match r.recv_timeout(Duration::from_secs(10)) { Ok(s) => s, Err(_) => { errs.push("snapshot never sent".into()); vec![] } },
+            Err(_) => { errs.push("second client did not finish".into()); vec![] }
+        };
+        let _ = th.join();
+        for _ in 0..400 { if log.lock().unwrap().len() >= 5 { break; } std::thread::sleep(Duration::from_millis(10)); }
+        let l = log.lock().unwrap().clone();
+        (snapshot, l, errs)
+    }
+}
+
 fn js(s: &str) -> String { format!("\"{}\"", s.replace('\\', "\\\\").replace('"', "\\\"")) }
 
 fn main() {
@@ -193,6 +242,12 @@ fn main() {
     let lib = a.get(1).map(|s| s.as_str()).unwrap_or("std").to_string();
     let callers: u64 = a.get(2).and_then(|s| s.parse().ok()).unwrap_or(4);
     let k: u64 = a.get(3).and_then(|s| s.parse().ok()).unwrap_or(6);
+    if lib == "std_order" {
+        let (snap, fin, errs) = p_std_order::run();
+        let l = |v: &Vec<String>| v.iter().map(|e| js(e)).collect::<Vec<_>>().join(", ");
+        println!("{{\"lib\": \"std_order\", \"snapshot\": [{}], \"log\": [{}], \"errors\": [{}]}}", l(&snap), l(&fin), l(&errs));
+        return;
+    }
     let log: Log = Arc::new(Mutex::new(vec![]));
     let (obs, errs) = match lib.as_str() {
         "std" => p_std::run(callers, k, log.clone()),
